@@ -20,9 +20,22 @@ Go code modelled (martian/core/runtime.go, martian/syntax/format_exp_json.go):
 
 What is abstracted (tied by the correspondence harness, not by proof):
 strings are decoded byte strings (JSON/MRO escape syntax is outside the model);
-a float is its shortest decimal form `(-1)^neg · mant · 10^exp` as produced by
-`strconv.FormatFloat(v,'g',-1,64)`; Go maps are association lists in the order
-of their sorted keys with no duplicate keys.
+a float is the exact value of a finite float64, `(-1)^neg · m · 2^e` (decimal
+printing/parsing by strconv is not modelled beyond "which values print in
+integer syntax"); Go maps are association lists in the order of their sorted
+keys with no duplicate keys.
+
+Two printers exist for a `FloatExp` and they differ (since the repair
+"float literals with an integral value are written as JSON integers"):
+* MRO text (`FloatExp.format`): `AppendFloat(v,'g',-1,64)` – integer syntax
+  iff the value is integral and below 10^6 in magnitude (`Flt.textAsInt`);
+* JSON (`FloatExp.appendJSON`, used by MarshalJSON/EncodeJSON): integer
+  syntax iff `float64(int64(v)) == v`, i.e. integral and within int64
+  (`Flt.jsonAsInt`), else the `'g'` form.
+Either way a number written in integer syntax is read back as an integer
+(`IntExp` / integer-class JSON number): the numeric value survives exactly, the
+int-vs-float syntax of an integral value does not, and neither does the sign of
+a floating-point zero (`-0.0` ↦ `0`).
 
 Core Lean only (no Mathlib): the driver links natively.
 -/
@@ -30,24 +43,27 @@ namespace Martian.Invocation
 
 abbrev Str := List UInt8
 
-/-- Shortest decimal form of a finite float64 (`mant` has no trailing zero
-digit unless it is 0). -/
+/-- The exact value of a finite float64: `(-1)^neg · m · 2^e` with `m` odd,
+or `m = 0 ∧ e = 0` for ±0 (so the value is integral iff `m = 0 ∨ 0 ≤ e`). -/
 structure Flt where
   neg : Bool
-  mant : Nat
-  exp : Int
+  m : Nat
+  e : Int
 deriving DecidableEq, Repr
 
-/-- `strconv.AppendFloat(v,'g',-1,64)` prints no `.` and no exponent:
-`%e` is used iff the decimal exponent `dp-1` is `< -4` or `≥ 6` (shortest ⇒
-`eprec = 6`), so integer syntax ⇔ zero, or no fractional digits and at most
-6 integer digits (⇔ the integral value is below 10^6). -/
-def Flt.printsAsInt (f : Flt) : Bool :=
-  f.mant == 0 || (decide (0 ≤ f.exp) && decide (f.mant * 10 ^ f.exp.toNat < 1000000))
-
+/-- the integral value `± m·2^e` (meaningful when `m = 0 ∨ 0 ≤ e`) -/
 def Flt.intVal (f : Flt) : Int :=
-  let v : Int := Int.ofNat (f.mant * 10 ^ f.exp.toNat)
+  let v : Int := Int.ofNat (f.m * 2 ^ f.e.toNat)
   if f.neg then -v else v
+
+def Flt.isIntegral (f : Flt) : Bool := f.m == 0 || decide (0 ≤ f.e)
+
+/-- MRO text: `strconv.AppendFloat(v,'g',-1,64)` prints no `.` and no
+exponent.  `%e` is used iff the decimal exponent `dp-1` is `< -4` or `≥ 6`
+(shortest ⇒ `eprec = 6`), so integer syntax ⇔ zero, or integral with at most 6
+digits (⇔ integral and below 10^6 in magnitude). -/
+def Flt.textAsInt (f : Flt) : Bool :=
+  f.m == 0 || (decide (0 ≤ f.e) && decide (f.m * 2 ^ f.e.toNat < 1000000))
 
 inductive Lit
   | null
@@ -60,11 +76,21 @@ deriving DecidableEq, Repr
 def inInt64 (i : Int) : Bool :=
   decide (-9223372036854775808 ≤ i) && decide (i ≤ 9223372036854775807)
 
-/-- What survives of a scalar after `format` → MRO lexer (or `MarshalJSON` →
-JSON text → token class): a float that prints in integer syntax is re-read as
-an integer of the same value. -/
+/-- JSON: the guard of `FloatExp.appendJSON`, `i := int64(v); float64(i) == v`
+(on amd64 an out-of-range conversion yields -2^63, so +2^63 is excluded and
+-2^63 included): the value is integral and fits int64.  Includes ±0. -/
+def Flt.jsonAsInt (f : Flt) : Bool :=
+  f.m == 0 || (decide (0 ≤ f.e) && inInt64 f.intVal)
+
+/-- What survives of a scalar after `MarshalJSON` → JSON text → token class: a
+float written in integer syntax is an integer-class number of the same value. -/
 def encLit : Lit → Lit
-  | .flt f => if f.printsAsInt then .int f.intVal else .flt f
+  | .flt f => if f.jsonAsInt then .int f.intVal else .flt f
+  | l => l
+
+/-- What survives of a scalar after `format` → MRO lexer. -/
+def textLit : Lit → Lit
+  | .flt f => if f.textAsInt then .int f.intVal else .flt f
   | l => l
 
 /-- integer literals the MRO lexer/`parseInt` can hold -/
@@ -298,6 +324,26 @@ def normEKvs : EKvs → EKvs
   | .nil => .nil
   | .cons k e r => .cons k (normE e) (normEKvs r)
 end
+
+mutual
+/-- `Ast.Format()` followed by the MRO parser (`BuildCallSource` then
+`InvocationDataFromSource`): structure and flags are kept, scalars go through
+the text printer and the lexer. -/
+def reparse : Exp → Exp
+  | .lit l => .lit (textLit l)
+  | .arr xs => .arr (reparseList xs)
+  | .map k kvs => .map k (reparseKvs kvs)
+def reparseList : EList → EList
+  | .nil => .nil
+  | .cons e r => .cons (reparse e) (reparseList r)
+def reparseKvs : EKvs → EKvs
+  | .nil => .nil
+  | .cons k e r => .cons k (reparse e) (reparseKvs r)
+end
+
+def Arg.reparse : Arg → Arg
+  | .plain e => .plain (Martian.Invocation.reparse e)
+  | .split e => .split (Martian.Invocation.reparse e)
 
 mutual
 /-- forget the struct-vs-map flags -/
